@@ -145,7 +145,7 @@ std::vector<K> place(const std::vector<long long> &off, int where, Rng &rng, boo
             // (a segment may then start exactly at the last key; bucket tables have to cover the whole key range)
             size_t nn = off.size();
             size_t tail = std::min<size_t>(nn > 2 ? nn - 2 : 0, 3 + rng.below(12));
-            Wide<K> cur = lo + (Wide<K>) rng.below(3);
+            Wide<K> cur = lo + (rng.chance(1, 2) ? (Wide<K>) 0 : (Wide<K>) rng.below(3));
             size_t body = nn - tail - (nn > tail ? 1 : 0);
             Wide<K> stride = body > 1 ? (room - 4) / (Wide<K>) body : 1;
             if (stride < 1) stride = 1;
